@@ -12,7 +12,11 @@ MIN_NONTRIVIAL = 50
 RULE = ("case = random schema model (objects/interfaces/unions/enums/custom scalars/input objects, list+non-null "
         "nestings, renamed roots) x %d valid-by-construction documents (aliases, repeated keys, inline/named fragment "
         "DAGs, type conditions, @skip/@include via literals and variables, 1-3 operations) x %d resolver data worlds "
-        "(well-typed leaves, dict/attr/class parents, three levels of runtime-type naming with decoys); oracle = "
+        "(well-typed leaves, dict/attr/class parents, three levels of runtime-type naming with decoys; in fractions of the "
+        "requests: rare nulls at non-null positions, custom scalars whose result coercion yields null, the same Python object "
+        "handed out whenever a field instance is reached again, lists of 513-1030 leaves, root-level lists of 128-600 objects; "
+        "SDL definitions in shuffled order, pass-through SCHEMA directive, @nonIntrospectable schemas with introspection "
+        "fields); execute must return (quiescence monitor); oracle = "
         "reference execution (spec section 6) on the models: data equal incl. key order, resolver-call multiset "
         "equal (parent identity, coerced args, ctx identity), only the most specific type resolver consulted. "
         "non-trivial = >=3 resolver calls and at least one of alias/fragment/abstract/skip/include; distinct by "
